@@ -75,7 +75,8 @@ def f26_nest_after_scope(f) -> bool:
     c = _case(f)
     rw = c.get("rewrites") or []
     v = (f.case or {}).get("violated", [])
-    return "scope" in rw and any(r in ("nest", "nest-all", "simplify") for r in rw[rw.index("scope") + 1:]) and \
+    scoped = [i for i, r in enumerate(rw) if r in ("scope", "scope-partial")]  # (any rewrite that leaves scoped parameters)
+    return bool(scoped) and any(r in ("nest", "nest-all", "simplify") for r in rw[scoped[0] + 1:]) and \
         bool(v) and all("is not a valid parameter name" in x and ("rewrite nest" in x or "rewrite simplify" in x)
                         for x in v)
 
